@@ -295,8 +295,11 @@ Definition validate (a : accept) (c : chain) : bool * N :=
                                                                 else String.eqb (top_type pc) (snd p)
                                                    | [] => false
                                                    end)) props in
-                   let n := (length missing + length extra + length badty)%nat in
-                   (Nat.eqb n 0, N.of_nat n)
+                   (* extra keys of a closed record are rejected by the `false` subschema, which reports nothing itself;
+                      evaluateTypedExpr then reports once if nothing else was reported and the value has no unknowns *)
+                   let ok := Nat.eqb (length missing + length extra + length badty) 0 in
+                   let n := (length missing + length badty)%nat in
+                   (ok, if negb ok && Nat.eqb n 0 then (if contains_unknowns c then 0 else 1) else N.of_nat n)
                | _ => (false, 1)
                end
       | [] => (false, 1)
